@@ -378,7 +378,7 @@ class Dependency(PackageSpecification):
                         f"Directory {name!r} is not installable. Not a Python project."
                     )
                 link = Link(path_to_url(p))
-            elif is_archive_file(p):
+            elif is_archive_file(p) and (os.path.sep in name or name.startswith(".")):
                 link = Link(path_to_url(p))
 
         # it's a local file, dir, or url
